@@ -462,7 +462,7 @@ fn flag(res: &str) -> usize {
     (match res { "none" => 0, "some" => 1, _ => 2 }) + if debug_build() { 10 } else { 0 }
 }
 fn spec_json(s: &Spec) -> String {
-    format!("\"shape\":{},\"variant\":{},\"args\":{},\"chain\":{}", s.shape, s.variant, jfs(&s.args), chain_json(&s.chain))
+    format!("{}\"shape\":{},\"variant\":{},\"args\":{},\"chain\":{}", if cfg!(feature = "float") { "\"f32\":true," } else { "" }, s.shape, s.variant, jfs(&s.args), chain_json(&s.chain))
 }
 fn rayv(ray: &Ray3D) -> Vec<Float> { let mut v = pv(ray.origin); v.extend(vv(ray.direction)); v }
 
@@ -525,6 +525,9 @@ pub fn run(stream: &str, seed: u64, n: usize, out: &str) {
     let mut r = Rng(r0.next() ^ r0.next().rotate_left(17));
     let mut x = Rng::new(seed ^ (salt << 12) ^ 0x7A11);
     let mut sink = Sink::new(out, "Quadric", 200);
+    // the f32 build is evaluated by the same runner text instantiated on the binary32 number instance (Run/Quadric.v, module Quadricf32)
+    #[cfg(feature = "float")]
+    { sink.runner = "Quadricf32".to_string(); }
     let zero = Point3D::new(0.0, 0.0, 0.0);
     for (s, rays) in corpus() {
         let b = build(&s);
